@@ -74,18 +74,18 @@ type Closure struct {
 }
 
 type Val struct {
-	T      types.Type
-	S      string // SMT term (value form)
-	Ptr    *Ptr
-	SRef   *SRef
-	Tup    []*Val
-	Clo    *Closure
-	Tag    *Tag
-	Dyn    *Val // interface with statically known dynamic value
-	Origin *Ptr // lvalue a value-form slice was loaded from
+	T          types.Type
+	S          string // SMT term (value form)
+	Ptr        *Ptr
+	SRef       *SRef
+	Tup        []*Val
+	Clo        *Closure
+	Tag        *Tag
+	Dyn        *Val // interface with statically known dynamic value
+	Origin     *Ptr // lvalue a value-form slice was loaded from
 	OriginTerm string
-	Fn     *ssa.Function
-	St     *State // state a collection reference was evaluated in (spec expressions)
+	Fn         *ssa.Function
+	St         *State // state a collection reference was evaluated in (spec expressions)
 }
 
 func (v *Val) String() string {
